@@ -1,4 +1,5 @@
 """C13 — write failures are reported, not swallowed; a successful flush means durable."""
+import os
 from . import common as C
 
 PID = "C13"
@@ -34,11 +35,26 @@ def run(ctx):
         return C.finish(ctx)
     quick = ctx.tier == "quick"
     ops, imp, mod = ctx.path("w.ops"), ctx.path("w.impl"), ctx.path("w.model")
-    rc, out = C.harness(["faults", "--write", "--seed", ctx.seed, "--max-runs", 700 if quick else 30000, "--ops", ops, "--impl", imp], timeout=6000)
-    if rc != 0:
-        ctx.undischarged.append("harness faults --write crashed: " + out[-300:])
-        return C.finish(ctx)
-    stat, _, oracle = C.parse_stats(out)
+    # every position of the underlying call sequence, in both tiers: 16 processes side by side, process i takes
+    # the positions k with k % 16 == i (a sampled quick tier let a change get past that needs a fault on exactly
+    # one 4-byte link write)
+    parts = 16
+    runs = C.harness_many([["faults", "--write", "--seed", ctx.seed, "--max-runs", 0, "--ops", "%s.%d" % (ops, i), "--impl", "%s.%d" % (imp, i)] for i in range(parts)],
+                          envs=[{"VERIF_PART": "%d/%d" % (i, parts)} for i in range(parts)], timeout=6000)
+    stat, oracle = {}, []
+    with open(ops, "w") as fo, open(imp, "w") as fi:
+        for i, (rc, out) in enumerate(runs):
+            if rc != 0:
+                ctx.undischarged.append("harness faults --write (part %d) crashed: %s" % (i, out[-300:]))
+                return C.finish(ctx)
+            st, _, orc = C.parse_stats(out)
+            for k, v in st.items():
+                stat[k] = (stat.get(k, 0) + v) if k.startswith("positions_") or k in ("evaluations", "structural_resizes") else v
+            oracle += orc
+            for path, f in (("%s.%d" % (ops, i), fo), ("%s.%d" % (imp, i), fi)):
+                with open(path) as g:
+                    f.write(g.read())
+                os.remove(path)
     seen = set()
     for msg in oracle:
         sg = signature(msg)
@@ -56,7 +72,7 @@ def run(ctx):
         "evaluations": stat.get("evaluations", 0),
         "distinct_nontrivial": stat.get("evaluations", 0),
         "underlying_calls": {k: v for k, v in stat.items() if k.startswith("wcalls_") or k.startswith("positions_")},
-        "rule": "mutating workload (create; storage; a handle writing 100 B, +5000 B across the mini->regular migration, overwrites, set_len to 200 / 9000 / 0, flushes; 12 streams growing the directory; removals; recursive create/remove; setters; flush) in V3 and V4; one run per selected position k of the underlying write/seek/flush call sequence (every position when <= max-runs, else a stride through all of them plus random ones); the failed call is retried, the rest of the workload continues; oracle: the call in which the fault fires returns Err, no Ok result with a fired fault, no failure without any fault, after every Ok flush a fresh handle reads every accepted byte, no panic, no hang (20 s watchdog). Handle traces are replayed on the Lean fault model until the first structural failure",
+        "rule": "mutating workload (create; storage; a handle writing 100 B, +5000 B across the mini->regular migration, overwrites, set_len to 200 / 9000 / 0, flushes; 12 streams growing the directory; removals; recursive create/remove; setters; flush) in V3 and V4; one run per position k of the underlying write/seek/flush call sequence — every position, in both tiers (16 processes side by side); the failed call is retried, the rest of the workload continues; oracle: the call in which the fault fires returns Err, no Ok result with a fired fault, no failure without any fault, after every Ok flush a fresh handle reads every accepted byte, no panic, no hang (20 s watchdog). Handle traces are replayed on the Lean fault model until the first structural failure",
         "samples": [l[:100] for l in ops_lines[1:4]],
         "traces_validated_against_impl": len(ops_lines),
     })
